@@ -109,7 +109,7 @@ def run_family(prop, invs, props, tier, seed, focus=None, signature_prefix="fami
     depth = 1 if quick else 2
     # (a second exported level costs about as much again: a sparser sample then; the diagonal
     # schemas - every node shape - are always in it)
-    stride = (27 if then else 9) if quick else (4 if then else 2)
+    stride = (27 if then else 9) if quick else (36 if then else 12)
     phase = seed % stride
     env = {"FAM_STRIDE": stride, "FAM_PHASE": phase}
     # 1. TLC, every schema of the family
@@ -168,7 +168,7 @@ def run_family(prop, invs, props, tier, seed, focus=None, signature_prefix="fami
     # 3. deeper simulated behaviours on random schemas
     cfgs = os.path.join(d, "sim.cfg")
     cfgmachine.write_cfg(cfgs, fam, 99, export=True, bound=False)
-    nsim, dsim = (80, 8) if quick else (3000, 12)
+    nsim, dsim = (80, 8) if quick else (800, 12)
     sim = tlc.run("MC_Config.tla", cfgs, workers=1, simulate=nsim, depth=dsim, seed=seed + 3, keep=("INIT", "EDGE"))
     sedges, sinits = _normalise(sim.printed.get("EDGE", []), sim.printed.get("INIT", []), descs)
     lap("simulate")
@@ -186,7 +186,7 @@ def run_family(prop, invs, props, tier, seed, focus=None, signature_prefix="fami
         )
     # 4. code -> spec on sampled schemas
     rng = random.Random(seed * 7919 + 11)
-    nsch, ntr, ltr = (24, 5, 10) if quick else (300, 8, 16)
+    nsch, ntr, ltr = (24, 5, 10) if quick else (150, 8, 16)
     sids = rng.sample(sorted(descs), min(nsch, len(descs)))
     traces = []
     for sid in sids:
